@@ -61,6 +61,7 @@ const (
 const streamRule = "stream (E2, worker process, real hsmsss connection Selected in a synctest bubble, active and passive, T8 = 1 s): " +
 	"streams = every sequence of 1..3 frames over {S1F1W+3-byte body (17 B), S6F12 orphan secondary+2-byte body (16 B), header-only S5F1 (14 B), Linktest.req (14 B)} (<= 51 bytes); " +
 	"seg: one write, all-single-bytes, every single cut, every pair of cuts (quick: pairs for the 20 streams of <= 2 frames and 6 three-frame streams; thorough: all 84); plus 5 streams with a 70 000-byte data frame and frames pipelined behind it {B, BL, BP, LBH, BBL}: one write, and cuts at the big frame's start +1/+4/+14/+4096/+65536/+65540, its end -1/0/+1; " +
+	"plus 10 streams with a frame the library rejects from its header (PType 1 / undefined SType 8) that CARRIES a body of 5, 6 or 2 000 bytes and frames pipelined behind it {RL, RP, UL, UP, PRP, LUH, QL, QP, LQH, QQP}: one write and every single cut (the 2 000-byte ones: cuts around the header, 1 024 bytes into the body and the frame end) — exactly one Reject.req per such frame, the frames behind it answered / delivered; " +
 	"gap: every single cut x pause {T8-1ms, T8+1ms, 10*T8, 100*T8} (quick: the same 26 streams; thorough: all), every single cut x pause T8+1ms with a local SendDataMessage at T8/2 into the pause (the library's own write must not extend or clear the peer's T8), idle {T8+1ms, 100*T8} before the first byte, all-single-bytes with T8-1ms / T8+1ms between bytes, every pair of cuts x pause pairs {(T8/8, T8-1ms), (1ms, T8-1ms), (T8-1ms, T8/8)} on the streams of <= 2 frames (the deadline counts from the last byte, not from an earlier arming); thorough: every pair of cuts x pauses {T8-1ms, T8+1ms}^2 on the streams of <= 2 frames; " +
 	"len: first four bytes in {0..9, cap+1, cap+2, 2^31, 2^32-1} alone / followed by a header / byte by byte / directly behind a valid frame: dropped at the same virtual instant with TotalAlloc delta < 1 MiB; legal edge lengths 10, 11 (+stall), cap (+stall): not dropped before T8, dropped after. " +
 	"oracle = reference framing model (deliveries byte-identical and in order, Linktest.rsp echoes, State(), peer EOF, re-dial / re-listen after a drop)"
@@ -99,6 +100,20 @@ func streamFrame(letter byte, i int) peer.Frame {
 		return peer.Data(streamSession, 5, 1, false, sys, nil)
 	case 'L':
 		return peer.Ctrl(peer.SLinktestReq, 0xFFFF, 0, 0, sys)
+	case 'R':
+		// a well-framed frame the library rejects from its header alone (PType 1), WITH a body: the
+		// body belongs to this frame and what follows it is the next frame, however it is segmented
+		return peer.Frame{Session: streamSession, B2: 0x81, B3: 1, PType: 1, SType: 0, Sys: sys, Body: []byte{0xA5, 0x01, 0x33, 0x00, byte(i)}}
+	case 'U':
+		// the same with an undefined SType (8) and a 6-byte body
+		return peer.Frame{Session: streamSession, SType: 8, Sys: sys, Body: []byte{1, 2, 3, 4, 5, byte(i)}}
+	case 'Q':
+		// undefined SType with a 2 000-byte body (longer than any scratch buffer a receiver might skip it with)
+		body := make([]byte, 2000)
+		for k := range body {
+			body[k] = byte(k*7 + i)
+		}
+		return peer.Frame{Session: streamSession, SType: 8, Sys: sys, Body: body}
 	case 'B':
 		// a big data frame (S2F1 W, binary item of 70 000 bytes): above every small-buffer size a
 		// receiver might start from
@@ -209,7 +224,11 @@ func (r *streamRun) expectDone(frames []peer.Frame, upto int, answers []peer.Fra
 	var wantDel [][]byte
 	var wantAns []string
 	for _, f := range frames[:upto] {
-		if f.SType == peer.SLinktestReq {
+		if f.PType != 0 {
+			wantAns = append(wantAns, peer.Ctrl(peer.SRejectReq, f.Session, f.PType, 2, f.Sys).Key())
+		} else if f.SType == 8 {
+			wantAns = append(wantAns, peer.Ctrl(peer.SRejectReq, f.Session, 8, 1, f.Sys).Key())
+		} else if f.SType == peer.SLinktestReq {
 			wantAns = append(wantAns, peer.Ctrl(peer.SLinktestRsp, 0xFFFF, 0, 0, f.Sys).Key())
 		} else {
 			wantDel = append(wantDel, f.Bytes())
@@ -701,6 +720,38 @@ func streamBody(c *vfw.Ctx, t *testing.T) {
 			if first+big+14 < n {
 				s := base
 				s.Cuts = []int{first + 65536, first + big + 3}
+				do(s)
+			}
+		}
+		if stop {
+			return
+		}
+	}
+	// ---- rejectable frames that carry a body, with frames pipelined behind them ----
+	for _, letters := range []string{"RL", "RP", "UL", "UP", "PRP", "LUH", "QL", "QP", "LQH", "QQP"} {
+		n := streamLen(letters)
+		for _, active := range roles {
+			base := streamCase{Fam: "seg", Active: active, Frames: letters}
+			do(base)
+			var cuts []int
+			if n <= 80 {
+				for a := 1; a < n; a++ {
+					cuts = append(cuts, a)
+				}
+			} else {
+				first := 0
+				if letters[0] != 'Q' {
+					first = len(streamFrame(letters[0], 0).Bytes())
+				}
+				q := len(streamFrame('Q', 0).Bytes())
+				cuts = []int{first + 1, first + 4, first + 14, first + 15, first + 14 + 1023, first + 14 + 1024, first + 14 + 1025, first + q - 1, first + q, first + q + 1, first + q + 14}
+			}
+			for _, cut := range cuts {
+				if cut <= 0 || cut >= n {
+					continue
+				}
+				s := base
+				s.Cuts = []int{cut}
 				do(s)
 			}
 		}
